@@ -65,6 +65,7 @@ inductive Boundary
   | try_          -- vm.try (Runtime.Try, builtins, promise jobs, iterator close)
   | runWrapped    -- Callable / Constructor / ExportTo'd func (runtime.go:2504)
   | runProgramRec -- RunProgram with len(callStack) > 0
+  | runProgram    -- RunProgram choosing its branch by len(callStack) (outermost e.g. directly under a depth-0 Try)
 deriving DecidableEq, Repr
 
 /-- Frame operations that bracket a sub-behaviour within one run loop. -/
@@ -84,6 +85,8 @@ inductive Beh
   | skip
   | seq (a b : Beh)
   | probe (id : Nat)                 -- native probe function (fault injection point)
+  | break_                           -- `break` out of the nearest enclosing for-of of the same function
+  | return_                          -- `return` out of the nearest enclosing function
   | throw_                           -- catchable: JS throw / Go panic with Value or *Exception / Go error
   | intr                             -- Interrupt() from inside a native, noticed by the run loop
   | frame (k : FrameKind) (ret : Beh) (body : Beh)   -- `ret`: iterator `return` behaviour (forOf only)
@@ -135,9 +138,14 @@ structure Vm where
   trace : List Obs
 deriving Repr, Inhabited
 
+/-- local exits: `break` out of the nearest for-of, `return` out of the nearest function — they run the
+block-exit code of every construct they cross (leaveTry with its `finally`, enumPopClose, leaveBlock …) -/
+inductive ExitKind | brk | ret
+deriving DecidableEq, Repr, Inhabited
+
 /-- `fatal`: uncatchable (interrupt, stack overflow, fuel exhaustion).
 `stuck`: a model assertion failed (proved unreachable: `run_good`). -/
-inductive Outcome | normal | thrown | fatal | stuck
+inductive Outcome | normal | thrown | fatal | stuck | exit (k : ExitKind)
 deriving DecidableEq, Repr, Inhabited
 
 abbrev Res := Outcome × Vm
@@ -308,6 +316,11 @@ def finPhase (runF : RunF) (fin : Beh) (s : Vm) : Res :=
       let s2 := { r.2 with tryStack := rest }
       if tf.exception.isSome then (.thrown, s2) else (.normal, s2)
     | [] => (.stuck, r.2)
+  | .exit e =>
+    -- a break / return out of the finally block itself: its exit code drops the frame
+    match r.2.tryStack with
+    | _ :: rest => (.exit e, { r.2 with tryStack := rest })
+    | [] => (.stuck, r.2)
   | o => (o, r.2)
 
 /-- End of the protected region.  Without `finally`: leaveTry (pop).  With `finally`: the compiler emits a
@@ -331,9 +344,17 @@ def throwToFinally (runF : RunF) (fin : Beh) (depth : Nat) (s : Vm) : Res :=
   | .aborted => (.fatal, r.2)
   | _ => (.stuck, r.2)
 
+/-- a break / return crossing the statement: `leaveTry` is emitted at the exit site (with a live `finally` it runs
+first, `finallyRet` leading back to the rest of the exit sequence), then the exit goes on -/
+def exitThrough (e : ExitKind) (r : Res) : Res :=
+  match r.1 with
+  | .normal => (.exit e, r.2)
+  | _ => r
+
 def afterHandler (runF : RunF) (hasFin : Bool) (fin : Beh) (depth : Nat) (r : Res) : Res :=
   match r.1 with
   | .normal => leaveTry runF fin r.2
+  | .exit e => exitThrough e (leaveTry runF fin r.2)
   | .thrown => if hasFin then throwToFinally runF fin depth r.2 else (.thrown, r.2)
   | o => (o, r.2)
 
@@ -343,6 +364,7 @@ def tryStmt (runF : RunF) (hasCatch hasFin : Bool) (body handler fin : Beh) (s :
   let r1 := runF body s0
   match r1.1 with
   | .normal => leaveTry runF fin r1.2
+  | .exit e => exitThrough e (leaveTry runF fin r1.2)
   | .thrown =>
     if hasCatch then
       let h := handleThrow runF true r1.2
@@ -375,6 +397,7 @@ def tryB (runF : RunF) (b : Beh) (s : Vm) : Res :=
   let r := runF b (pushTryFrame tryPanicMarker (-1) s)
   match r.1 with
   | .normal => (.normal, popTryFrame r.2)
+  | .exit _ => (.normal, popTryFrame r.2)     -- a Go callback has no break/return to propagate: plain return
   | .stuck => (.stuck, r.2)
   | o => unwindAtMarker runF o r.2
 
@@ -410,6 +433,7 @@ def goCall (runF : RunF) (n : Nat) (f : FnInfo) (b : Beh) (s : Vm) : Res :=
     let r := if s3.interrupted then (Outcome.fatal, s3) else runF b s3
     match r.1 with
     | .normal => (.normal, goCallRet needPop r.2)
+    | .exit _ => (.normal, goCallRet needPop r.2)     -- `return`: the same `ret` instruction
     | .stuck => (.stuck, r.2)
     | o => unwindAtMarker runF o r.2
 
@@ -495,6 +519,20 @@ def runProgramOuter (runF : RunF) (lf : Nat) (p : Nat) (b : Beh) (s : Vm) : Res 
 
 /-! ### one layer of the interpreter -/
 
+/-- block-exit code of a bracketing frame crossed by a break / return (`s2` = state after the body) -/
+def frameExit (runF : RunF) (k : FrameKind) (ret : Beh) (e : ExitKind) (s2 : Vm) : Res :=
+  match k with
+  | .forOf closable =>
+    -- enumPopClose (vm.go): pop the record, then iter.returnIter() — NOT shielded by vm.try
+    let s3 := k.post s2
+    let r := if closable then runF ret s3 else (Outcome.normal, s3)
+    (match r.1 with
+     | .normal | .exit _ => (match e with | .brk => (.normal, r.2) | .ret => (.exit .ret, r.2))
+     | o => (o, r.2))
+  | .call _ _ => (.normal, k.post s2)      -- `return` ends the function (`ret` instruction); a break cannot cross it
+  | .native _ => (.normal, k.post s2)
+  | _ => (.exit e, k.post s2)              -- leaveBlock / operand and reference clean-up, then go on
+
 /-- A native ignores what a nested API call returned: a returned *Exception or StackOverflowError is dropped and
 the native goes on.  An InterruptedError cannot be ignored in effect — the flag is still set (only the outermost
 call clears it), so the caller's run loop raises it again; and an uncatchable passing through `Runtime.Try` is
@@ -510,6 +548,7 @@ def apiNode (lf : Nat) (runF : RunF) (k : Boundary) (b : Beh) (s : Vm) : Res :=
   | .try_ => tryB runF b s
   | .runWrapped => runWrapped runF lf b s
   | .runProgramRec => runProgramRec runF 7 b s
+  | .runProgram => if s.callStack.length > 0 then runProgramRec runF 7 b s else runProgramOuter runF lf 7 b s
 
 def step (lf : Nat) (runF : RunF) : Beh → Vm → Res
   | .skip, s => (.normal, s)
@@ -519,6 +558,8 @@ def step (lf : Nat) (runF : RunF) : Beh → Vm → Res
     | .normal => runF b r.2
     | o => (o, r.2)
   | .probe id, s => probe id s
+  | .break_, s => (.exit .brk, s)
+  | .return_, s => (.exit .ret, s)
   | .throw_, s => (.thrown, s)
   | .intr, s => (.fatal, { s with interrupted := true })
   | .frame k ret body, s =>
@@ -528,6 +569,7 @@ def step (lf : Nat) (runF : RunF) : Beh → Vm → Res
       let r := runF body s1
       match r.1 with
       | .normal => (.normal, k.post r.2)
+      | .exit e => frameExit runF k ret e r.2
       | o => (o, r.2)
   | .try_ hc hf body handler fin, s =>
     if hc || hf then tryStmt runF hc hf body handler fin s else runF body s
